@@ -1,17 +1,32 @@
 """C16 - results depend on the input only (hash seed, repetition).
 
-seed_compare / seed_phase (PySym): the interpreter's hash seed becomes a symbolic
-variable - inside the repo modules every iteration over a set of strings (or of
-objects hashed through strings) yields a solver-chosen order.  The command-level
-function is run once with the canonical order and once with the solver's order;
-everything it writes must be identical.  A reported difference is confirmed by
-running the real CLI under different PYTHONHASHSEED values.
+Technique (PySym): the interpreter's hash seed becomes a symbolic variable - inside the repo modules loaded through
+SymWorld(shadows=nondet.shadows(), transformer=nondet.transformer) every iteration over a set / frozenset that holds
+hash-randomised elements (str, VcfVariants, and - opt-in - identity-hashed objects) yields a solver-chosen order
+(e.perm).  The command-level function is run once with the canonical order and once with the solver's order; everything
+it writes must be identical.  A reported difference is confirmed on the REAL CLI: the same input is materialised as
+files and the command is run under several PYTHONHASHSEED values, two of which must disagree on the same output.
 
-Not applicable (stated in DESIGN.md): --threads of polyphase and --output-threads
-(no interleaving of OS threads / processes is visible to a symbolic executor of
-the Python/C++ source).
+Sub-checks
+  seed_compare    run_compare (2-3 VCFs; pairwise / multiway TSV, BED, longest-block TSV, stdout)
+  seed_polyphase  run_polyphase's sample loop
+  seed_phase      run_whatshap with --ped [--use-ped-samples] [--distrust-genotypes]: PedReader.samples() = list(set()),
+                  setup_families, family loop; real PhasedVcfWriter on the pysam model; read / recombination /
+                  changed-genotype lists
+  seed_genotype   run_genotype: samples = frozenset(samples), prior loop, families; --prioroutput
+  seed_haplotag   run_haplotag with 2-3 samples: compute_variant_file_samples_to_use / compute_shared_samples (sets),
+                  per-sample loop, barcode clouds (sets of Read objects)
+  seed_stats, seed_unphase, seed_split   the commands that hardly use sets, one pass each under NSet shadows
+
+In the new sub-checks one permutation is chosen per distinct set content and run (`_memo_hook`).  Dict iteration is
+insertion-ordered in Python and is not a source of nondeterminism by itself (it only forwards the order of what was
+inserted); it is therefore left alone.
+
+Not applicable (stated in DESIGN.md): --threads of polyphase and --output-threads (no interleaving of OS threads /
+processes / htslib worker threads is visible to a symbolic executor of the Python/C++ source).
 """
 import io
+import json
 import os
 import shutil
 import subprocess
@@ -271,6 +286,7 @@ class SeedPolyphase(SubCheck):
         if not hasattr(self, "_world"):
             self._world = self._load_world(core)
         mod, vcf = self._world
+        nondet.EXTRA_SENSITIVE[:] = [lambda x: hasattr(x, "reference_allele")]  # explicit: the list is module state shared with the other sub-checks of a worker
         return self._run_sym(e, shape, names, nvar, het, core, mod, vcf)
 
     def _load_world(self, core):
@@ -419,7 +435,7 @@ LAYOUTS = {
     "quartet": dict(samples=["mum", "sis", "kid", "dad"], ped=[("kid", "dad", "mum"), ("sis", "dad", "mum")], roles=dict(dad="father", mum="mother", kid="child", sis="child2"), recombrate=1000,
                     gt=dict(dad=[(0, 1)] * 3, mum=[(0, 0)] * 3, kid=[(0, 1), (0, 1), (0, 0)], sis=[(0, 1), (0, 1), (0, 0)]),
                     reads=dict(dad=[[1, 1, 1]] * 3, mum=[[0, 0, 0]], kid=[[1, 1, 0]], sis=[[1, 1, 0]])),
-    "two trios": dict(samples=["mum", "pa", "kid", "ch", "dad", "ma"], ped=[("kid", "dad", "mum"), ("ch", "pa", "ma")], roles=dict(dad="father", mum="mother", kid="child", pa="father", ma="mother", ch="child")),
+    "two-trios": dict(samples=["mum", "pa", "kid", "ch", "dad", "ma"], ped=[("kid", "dad", "mum"), ("ch", "pa", "ma")], roles=dict(dad="father", mum="mother", kid="child", pa="father", ma="mother", ch="child")),
     "trio+single": dict(samples=["solo", "mum", "kid", "dad"], ped=[("kid", "dad", "mum"), ("solo", "0", "0")], roles=dict(dad="father", mum="mother", kid="child", solo="single")),
 }
 
@@ -445,7 +461,9 @@ class PedScenario:
         # solver-chosen structure: the first child's genotype at the first variant (homozygous -> genetic-haplotyping master block)
         self.kid_het0 = e.bit("kid_het_at_first_variant") if "gt" not in lay else 0
         # with --distrust-genotypes: do the likelihoods of father / mother contradict their called genotype at the first variant?
-        self.pl_flip = {s: (e.bit("pl_contradicts_gt_%s" % s) if self.distrust else 0) for s in self.samples if self.roles[s] in ("father", "mother")}
+        parents = [s for s in self.samples if self.roles[s] in ("father", "mother")]
+        first = [s for s in parents if s in lay["ped"][0]]  # solver-chosen for the parents of the first trio only (keeps the two-trio shapes small)
+        self.pl_flip = {s: (e.bit("pl_contradicts_gt_%s" % s) if (self.distrust and s in first) else 0) for s in parents}
         self.gt, self.pl = {}, {}
         for c in self.chroms:
             for v in range(3):
@@ -633,7 +651,8 @@ def _ped_stub_classes(core, cur):
             inv = s.nsi.inverse_mapping()
             p = s.positions[pos_index]
             ncov = sum(1 for r in s.reads if inv[r.sample_id] == sample and any(v.position == p for v in r))
-            k = (_nh(sample) + p // 10 + ncov + len(s.ped.trios)) % 3
+            prior = [list(gls[pos_index].gl) for name, gts, gls in s.ped.individuals if name == sample][0]
+            k = (_nh(sample) + p // 10 + ncov + len(s.ped.trios) + prior.index(max(prior))) % 3
             gl = [0.125, 0.125, 0.125]
             gl[k] = 0.75
             return core.PhredGenotypeLikelihoods(gl)
@@ -719,18 +738,20 @@ class SeedPhase(SubCheck):
                    "the compiled PedigreeDPTable gives every individual the same result whatever the order of Pedigree.add_individual calls (source argument: the column cost is a minimum over a label-independent set of allele assignments and tied alleles are reported as EQUAL_SCORES; "
                    "observed: tests/data/trio.* phased identically under 6 hash seeds that order the family differently) - LLSym query (b) of DESIGN 4/C16 was not built",
                    "ReadSet.sort() is a total order on (first position, name, source id): the merged read set is a function of the set of reads (src/readset.h read_comparator_t; duplicates are rejected by ReadSet.add)"]
-    required_cover = ["use-ped-samples: sample list from a set", "two families", "two trios in one family", "recombination event written", "genotype change written", "read list written", "a set was iterated in a solver-chosen order", "two chromosomes"]
+    # "a set was iterated in a solver-chosen order" was required until PedReader.samples() stopped returning list(set(...)) (fix 40a0cc1):
+    # on the repaired tree run_whatshap iterates no set of hash-randomised elements in these scenarios, so the vacuity guard is that its sets are NSets
+    required_cover = ["use-ped-samples: sample list from a set", "two families", "two trios in one family", "recombination event written", "genotype change written", "read list written", "sets of the command are NSets", "two chromosomes"]
     replay_every = 4  # a replay re-executes the stub world for the witness' order and looks the real results up (cached per materialised input)
     max_decisions = 200000
 
     def budget(self, tier):
-        return 150 if tier == "quick" else 900
+        return 400 if tier == "quick" else 1800
 
     def shapes(self, tier):
         S = lambda **k: dict(dict(nchrom=2, use_ped=True, distrust=False), **k)
-        out = [S(fam="trio"), S(fam="trio", distrust=True), S(fam="trio", distrust=True, use_ped=False), S(fam="quartet"), S(fam="trio+single", use_ped=False, distrust=True), S(fam="trio+single"), S(fam="two trios", nchrom=1)]
+        out = [S(fam="trio"), S(fam="trio", distrust=True), S(fam="trio", distrust=True, use_ped=False), S(fam="quartet"), S(fam="trio+single", use_ped=False, distrust=True), S(fam="trio+single"), S(fam="two-trios", nchrom=1)]
         if tier != "quick":
-            out += [S(fam="quartet", distrust=True), S(fam="two trios", nchrom=1, distrust=True), S(fam="two trios", nchrom=2)]
+            out += [S(fam="quartet", distrust=True), S(fam="two-trios", nchrom=1, distrust=True), S(fam="two-trios", nchrom=2)]
         return out
 
     def bounds(self, tier):
@@ -739,10 +760,12 @@ class SeedPhase(SubCheck):
                 "every iteration over a set of sample names (<= 6: all 720 orders) in a solver-chosen order; outputs compared: written VCF, --output-read-list, --recombination-list, --changed-genotype-list, exception" % ("" if tier == "quick" else ", also with distrust / two chromosomes"))
 
     def setup(self):
+        import logging
         from vf.models import core_model
 
         self.core_model = core_model
         self._real_cache = {}
+        logging.getLogger("whatshap").setLevel(logging.ERROR)  # warn_once() / timer warnings of the repo code are not outputs
 
     def sym_impl(self):
         return "sym"
@@ -770,22 +793,25 @@ class SeedPhase(SubCheck):
         sc = PedScenario(e, shape)
         if shape["use_ped"]:
             e.cover("use-ped-samples: sample list from a set")
-        if shape["fam"] in ("two trios", "trio+single"):
+        if shape["fam"] in ("two-trios", "trio+single"):
             e.cover("two families")
         if shape["fam"] == "quartet":
             e.cover("two trios in one family")
         if shape["nchrom"] == 2:
             e.cover("two chromosomes")
+        nondet.BUILT[0] = 0
         base, other, iterated, orders = self.sym_pair(e, shape, sc)
+        if nondet.BUILT[0]:
+            e.cover("sets of the command are NSets")
         if iterated:
             e.cover("a set was iterated in a solver-chosen order")
-        e.check(base["<exception>"] is None, "harness: the command raised under the stubs: %s" % base["<exception>"], None)
         for tag, f in (("recombination event written", "recomb.tsv"), ("genotype change written", "gtchanges.tsv"), ("read list written", "reads.tsv")):
             if len((base.get(f) or "").splitlines()) > 1:
                 e.cover(tag)
         differing = [k for k in sorted(base) if base[k] != other.get(k)]
         if impl == "real":
             return self.confirm_real(e, shape, sc, differing, orders)
+        e.check(base["<exception>"] is None, "the command raised under the stubs: %s" % base["<exception>"], lambda: dict(file="<exception>", kind="crash"))
         for k in differing:
             e.check(False, "output %s depends on the iteration order of a set (hash seed)" % k,
                     lambda k=k: dict(file=k, kind=_diff_kind(base[k], other.get(k)) if k.endswith(".tsv") else "content", canonical=str(base[k])[-600:], other=str(other.get(k))[-600:]))
@@ -796,48 +822,47 @@ class SeedPhase(SubCheck):
         if not hasattr(self, "_world"):
             self._world = self._load_world()
         W = self._world
-        pm, phase, vcf, pedmod, core = W["pm"], W["phase"], W["vcf"], W["ped"], self.core_model
-        PedStub, DPStub, _ = _ped_stub_classes(core, {})
-        Reader, Input = _PedReaderStubs.make(sc, vcf, core)
-        phase.VcfReader, phase.PhasedInputReader, phase.Pedigree, phase.PedigreeDPTable = Reader, Input, PedStub, DPStub
+        self.prepare(W, sc)
         nondet.EXTRA_SENSITIVE[:] = [lambda x: hasattr(x, "reference_allele"), nondet.id_hashed]
-        orders = []
-        if not hasattr(pedmod.PedReader, "_c16_samples"):
-            pedmod.PedReader._c16_samples = pedmod.PedReader.samples
-        orig = pedmod.PedReader._c16_samples
-
-        def samples(s):
-            r = orig(s)
-            orders.append(list(r))
-            return r
-
-        pedmod.PedReader.samples = samples
 
         def run(hook):
-            fs = MemFS()
-            phase.__dict__["__builtins__"]["open"] = fs.open
-            pedmod.open = lambda path, *a, **k: io.StringIO(sc.ped_text)  # module global shadows the builtin for PedReader only
-            pm.FS.clear()
-            pm.FS["in.vcf"] = sc.doc(with_pl=False)
-            sink = pm.MemFile()
             nondet.ORDER_HOOK = hook
             exc = None
+            res = {}
             try:
-                phase.run_whatshap(phase_input_files=["reads.bam"], variant_file="in.vcf", output=sink, ped="ped.txt", use_ped_samples=shape["use_ped"], distrust_genotypes=sc.distrust,
-                                   read_list_filename="reads.tsv", gtchange_list_filename="gtchanges.tsv", recombination_list_filename="recomb.tsv", write_command_line_header=False, recombrate=sc.recombrate)
+                self.invoke(W, sc, shape, res)
             except Exception as ex:
                 exc = "%s: %s" % (type(ex).__name__, ex)
             finally:
                 nondet.ORDER_HOOK = None
-            res = dict(fs.files)
-            res["out.vcf"] = repr(sink.doc)
             res["<exception>"] = exc
             return res
 
         base = run(None)
         hook, cnt = _memo_hook(e)
         other = run(hook)
-        return base, other, cnt[0], orders
+        return base, other, cnt[0], []
+
+    def prepare(self, W, sc):
+        phase, vcf, core = W["phase"], W["vcf"], self.core_model
+        PedStub, DPStub, _ = _ped_stub_classes(core, {})
+        Reader, Input = _PedReaderStubs.make(sc, vcf, core)
+        phase.VcfReader, phase.PhasedInputReader, phase.Pedigree, phase.PedigreeDPTable = Reader, Input, PedStub, DPStub
+
+    def invoke(self, W, sc, shape, res):
+        pm, phase, pedmod = W["pm"], W["phase"], W["ped"]
+        fs = MemFS()
+        phase.__dict__["__builtins__"]["open"] = fs.open
+        pedmod.open = lambda path, *a, **k: io.StringIO(sc.ped_text)  # module global shadows the builtin for PedReader only
+        pm.FS.clear()
+        pm.FS["in.vcf"] = sc.doc(with_pl=False)
+        sink = pm.MemFile()
+        try:
+            phase.run_whatshap(phase_input_files=["reads.bam"], variant_file="in.vcf", output=sink, ped="ped.txt", use_ped_samples=shape["use_ped"], distrust_genotypes=sc.distrust,
+                               read_list_filename="reads.tsv", gtchange_list_filename="gtchanges.tsv", recombination_list_filename="recomb.tsv", write_command_line_header=False, recombrate=sc.recombrate)
+        finally:
+            res.update(fs.files)
+            res["out.vcf"] = repr(sink.doc)
 
     REAL_FILES = ("out.vcf", "reads.tsv", "recomb.tsv", "gtchanges.tsv")
 
@@ -879,7 +904,8 @@ class SeedPhase(SubCheck):
           input for another pair of orders (known finding); a run of the real CLI cannot be pinned to one solver-chosen order,
           and the real solver may change other genotypes than the contract stub, so nothing is asserted for such a path."""
         results = self.real_results(shape, sc)
-        e.check(results[0]["<rc>"] == 0, "harness: the real command failed on the materialised input: %s" % results[0].get("<stderr>"), None)
+        for r in results:  # a crash of the stub world has to be a crash of the real command (and vice versa: replay mismatch)
+            e.check(r["<rc>"] == 0, "the real command failed on the materialised input: %s" % r.get("<stderr>"), None)
         dep = {k: any(results[0].get(k) != r.get(k) for r in results[1:]) for k in self.REAL_FILES + ("<rc>",)}
         for k in differing:
             kk = k if k in dep else "<rc>"
@@ -894,3 +920,640 @@ class SeedPhase(SubCheck):
 
 
 SUBCHECKS["seed_phase"] = SeedPhase()
+
+
+class SeedGenotype(SeedPhase):
+    """run_genotype (samples = frozenset(samples), families, prior loop over the sample set) under stubs analogous to seed_phase"""
+
+    name = "seed_genotype"
+    encoded = ["whatshap.cli.genotype.run_genotype", "determine_genotype", "whatshap.cli.phase.setup_families / setup_pedigree / select_reads", "whatshap.pedigree.PedReader / UniformRecombinationCostComputer", "whatshap.graph.ComponentFinder", "whatshap.vcf.VariantTable (set_genotypes_of, set_genotype_likelihoods_of, ...)"]
+    sources = ["whatshap/cli/genotype.py", "whatshap/cli/phase.py", "whatshap/pedigree.py", "whatshap/vcf.py", "whatshap/graph.py"]
+    stubs = ["VcfReader / PhasedInputReader / readselection as in seed_phase", "compute_genotypes (prior genotyping) and GenotypeDPTable: contract stubs whose likelihoods are a function of the individual's reads, its prior and the trios (per individual name)",
+             "GenotypeVcfWriter records, per chromosome, the genotypes and likelihoods of every sample of the table it is given (by sample name) - both for the output and for --prioroutput",
+             "set/frozenset -> vf/pysym/nondet.py", "replay: the real `whatshap genotype` CLI (--prioroutput included) on the materialised VCF / PED / BAM under PYTHONHASHSEED 0..5"]
+    assumptions = ["as seed_compare", "the compiled GenotypeDPTable gives every individual the same likelihoods whatever the order of Pedigree.add_individual calls (observed on tests/data/trio.* under 6 hash seeds; not proved - floating-point summation order inside the C++ forward-backward pass is outside this technique)"]
+    required_cover = ["use-ped-samples: sample list from a set", "two families", "two trios in one family", "a set was iterated in a solver-chosen order", "two chromosomes", "prior genotyping over the sample set", "uniform priors"]
+    REAL_FILES = ("out.vcf", "prior.vcf")
+
+    def shapes(self, tier):
+        S = lambda **k: dict(dict(nchrom=2, use_ped=True, nopriors=False), **k)
+        out = [S(fam="trio"), S(fam="trio", use_ped=False), S(fam="quartet", nopriors=True), S(fam="trio+single", use_ped=False), S(fam="two-trios", nchrom=1, use_ped=False)]
+        if tier != "quick":
+            out += [S(fam="quartet"), S(fam="two-trios", nchrom=2), S(fam="trio+single", nopriors=True)]
+        return out
+
+    def bounds(self, tier):
+        return ("families as in seed_phase (trio, quartet, trio + unrelated single, two trios = 6 samples: all 720 orders of frozenset(samples)), 1-2 chromosomes x 3 variants, 1-3 reads per sample and chromosome, "
+                "prior genotyping on / --no-priors, --use-ped-samples on/off, --prioroutput; outputs compared: what the two VCF writers are given per chromosome and sample, exception")
+
+    def _load_world(self):
+        core = self.core_model
+        climod = types.ModuleType("whatshap.cli")
+        climod.__path__ = [os.path.join(REPO, "whatshap", "cli")]
+        climod.__package__ = "whatshap.cli"
+        climod.CommandLineError = type("CommandLineError", (Exception,), {})
+        climod.log_memory_usage = lambda *a, **k: None
+        climod.PhasedInputReader = None
+        w = SymWorld(
+            overrides={"whatshap.core": core, "whatshap.cli": climod, "whatshap.readselect": types.SimpleNamespace(readselection=lambda rs, cov, preferred_source_ids=None, bridging=True: set(range(len(rs))))},
+            shadows=nondet.shadows(),
+            transformer=nondet.transformer,
+        )
+        return dict(geno=w.load("whatshap.cli.genotype"), phase=w.load("whatshap.cli.phase"), vcf=w.load("whatshap.vcf"), ped=w.load("whatshap.pedigree"), world=w)
+
+    def harness(self, e, shape, impl):
+        e.cover("uniform priors" if shape["nopriors"] else "prior genotyping over the sample set")
+        return SeedPhase.harness(self, e, shape, impl)
+
+    def prepare(self, W, sc):
+        geno, vcf, core = W["geno"], W["vcf"], self.core_model
+        PedStub, _, GenoDPStub = _ped_stub_classes(core, {})
+        Reader, Input = _PedReaderStubs.make(sc, vcf, core, with_genotypes=False)
+
+        def compute_genotypes(readset, positions):
+            gts, gls = [], []
+            for p in positions:
+                al = [v.allele for r in readset for v in r if v.position == p]
+                n0, n1 = al.count(0), al.count(1)
+                gl = [0.2 + 0.1 * (n0 > n1), 0.2 + 0.1 * (n0 == n1), 0.2 + 0.1 * (n1 > n0)]
+                tot = sum(gl)
+                gls.append([x / tot for x in gl])
+                gts.append(core.Genotype([]))
+            return gts, gls
+
+        geno.VcfReader, geno.PhasedInputReader, geno.Pedigree, geno.GenotypeDPTable, geno.compute_genotypes = Reader, Input, PedStub, GenoDPStub, compute_genotypes
+
+    def invoke(self, W, sc, shape, res):
+        geno, pedmod = W["geno"], W["ped"]
+        fs = MemFS()
+        geno.__dict__["__builtins__"]["open"] = fs.open
+        pedmod.open = lambda path, *a, **k: io.StringIO(sc.ped_text)
+        written = {"out.vcf": [], "prior.vcf": []}
+
+        class Writer(_Ctx):
+            def __init__(s, command_line=None, in_path=None, out_file=None):
+                s.log = written["out.vcf"] if not hasattr(out_file, "getvalue") else written["prior.vcf"]
+
+            def write_genotypes(s, chromosome, table, only_snvs, ploidy=2):
+                for sample in sorted(table.samples):
+                    gl = [None if x is None else [round(float(y), 9) for y in x] for x in table.genotype_likelihoods_of(sample)]
+                    s.log.append((chromosome, sample, [str(g) for g in table.genotypes_of(sample)], gl))
+
+            def write_unchanged(s, chromosome):
+                s.log.append((chromosome, "unchanged"))
+
+        geno.GenotypeVcfWriter = Writer
+        try:
+            geno.run_genotype(phase_input_files=["reads.bam"], variant_file="in.vcf", output="out.vcf", ped="ped.txt", use_ped_samples=shape["use_ped"], nopriors=shape["nopriors"], prioroutput=None if shape["nopriors"] else "prior.vcf",
+                              write_command_line_header=False, recombrate=sc.recombrate)
+        finally:
+            res["out.vcf"] = repr(written["out.vcf"])
+            res["prior.vcf"] = repr(written["prior.vcf"])
+
+    def real_argv(self, shape, sc, vcf_path, ped_path, bam, out):
+        argv = ["genotype", "--recombrate", str(sc.recombrate), "--ped", ped_path, "-o", os.path.join(out, "out.vcf")]
+        if shape["use_ped"]:
+            argv.append("--use-ped-samples")
+        argv += ["--no-priors"] if shape["nopriors"] else ["--prioroutput", os.path.join(out, "prior.vcf")]  # the two options exclude each other
+        return argv + [vcf_path, bam]
+
+    def classify(self, shape, v):
+        info = v.get("info") or {}
+        return "seed_genotype:%s:fam=%s:use_ped_samples=%s:nopriors=%s" % (info.get("file", v["msg"]), shape["fam"], shape["use_ped"], shape["nopriors"])
+
+
+SUBCHECKS["seed_genotype"] = SeedGenotype()
+
+
+# =====================================================================================================================
+# seed_haplotag: sample selection + per-sample processing + barcode clouds of whatshap haplotag
+# =====================================================================================================================
+HT_MODES = {
+    # VCF sample columns, BAM read-group samples, phased variants {pos: {sample: (phase, block id)}}, alignments in file order
+    # (name, sample, start, barcode, covered positions)
+    "shared barcode": dict(vcf=["sB", "sA"], bam=["sA", "sB"], variants={120: {"sA": 121}, 130: {"sB": 131}},
+                           recs=[("rA1", "sA", 100, "B1", [120]), ("rB1", "sB", 100, "B1", [130]), ("x", "sA", 200, "B1", [])]),
+    "same read name": dict(vcf=["sB", "sA"], bam=["sA", "sB"], variants={120: {"sA": 121}, 130: {"sB": 131}},
+                           recs=[("r1", "sA", 100, "", [120]), ("r1", "sB", 100, "", [130])]),
+    "disjoint": dict(vcf=["sB", "sA"], bam=["sA", "sB"], variants={120: {"sA": 121}, 130: {"sB": 131}},
+                     recs=[("rA1", "sA", 100, "B1", [120]), ("rB1", "sB", 100, "B2", [130]), ("x", "sA", 200, "B1", []), ("y", "sB", 200, "B2", [])]),
+    # one sample, one barcode cloud of two reads that touch two phase sets with different maxima (80 vs 40): the cloud is a
+    # Python set of Read objects (identity hash -> address order)
+    "cloud": dict(vcf=["sA"], bam=["sA"], variants={120: {"sA": 121}, 130: {"sA": 121}, 330: {"sA": 331}},
+                  recs=[("rA1", "sA", 100, "B1", [120, 130]), ("rA2", "sA", 300, "B1", [330]), ("x", "sA", 400, "B1", [])]),
+    # sample selection: VCF has a sample without reads, the BAM a sample that is not in the VCF
+    "selection": dict(vcf=["sC", "sB", "sA"], bam=["sA", "sD", "sB"], variants={120: {"sA": 121, "sC": 121}, 130: {"sB": 131}},
+                      recs=[("rA1", "sA", 100, "B1", [120]), ("rB1", "sB", 100, "B2", [130]), ("rD1", "sD", 100, "B3", [120, 130]), ("x", "sA", 200, "B1", []), ("y", "sB", 200, "B2", [])]),
+}
+
+
+class HtScenario:
+    def __init__(self, e, shape):
+        m = HT_MODES[shape["mode"]]
+        self.shape = shape
+        self.vcf_samples, self.bam_samples, self.variants = m["vcf"], m["bam"], m["variants"]
+        self.given = shape.get("given")
+        self.positions = sorted(self.variants)
+        # phased alleles: 0|1 at the first position of a phase set, solver-chosen elsewhere
+        self.phase = {}
+        for p in self.positions:
+            for s, ps in self.variants[p].items():
+                first = min(q for q in self.positions if self.variants[q].get(s) == ps) == p
+                self.phase[p, s] = (0, 1) if first or not e.bit("flip_%d_%s" % (p, s)) else (1, 0)
+        self.recs = []
+        for name, sample, start, bx, cov in m["recs"]:
+            hap = e.bit("hap_%s_%s" % (name, sample)) if cov else 0  # the haplotype the read supports (consistently at all its variants)
+            alleles = {p: self.phase[p, sample][hap] for p in cov if (p, sample) in self.phase}
+            for p in cov:
+                if (p, sample) not in self.phase:
+                    alleles[p] = 0
+            self.recs.append(dict(name=name, sample=sample, start=start, bx=bx, alleles=alleles))
+
+    def key(self):
+        return repr((sorted(self.shape.items(), key=str), sorted(self.phase.items()), [sorted(r.items(), key=str) for r in self.recs]))
+
+    def table(self, vcf, core):
+        vt = vcf.VariantTable("chr1", list(self.vcf_samples))
+        n = len(self.vcf_samples)
+        for p in self.positions:
+            gts, phs = [], []
+            for s in self.vcf_samples:
+                if (p, s) in self.phase:
+                    gts.append(core.Genotype([0, 1]))
+                    phs.append(vcf.VariantCallPhase(block_id=self.variants[p][s], phase=self.phase[p, s], quality=None))
+                else:
+                    gts.append(core.Genotype([0, 0]))
+                    phs.append(None)
+            vt.add_variant(vcf.BiallelicVcfVariant(p, "A", "C"), gts, phs, [None] * n, [None] * n)
+        return vt
+
+    def reads_by_sample(self):
+        out = {}
+        for r in self.recs:
+            if r["alleles"]:
+                out.setdefault(r["sample"], []).append(dict(name=r["name"], start=r["start"], bx=r["bx"], vars=[(p, a, 40) for p, a in sorted(r["alleles"].items())]))
+        return out
+
+    def write_real_files(self, tmp):
+        import pysam
+
+        pysam.set_verbosity(0)
+        lines = ["##fileformat=VCFv4.2", "##contig=<ID=chr1,length=10000>", '##FORMAT=<ID=GT,Number=1,Type=String,Description="g">', '##FORMAT=<ID=PS,Number=1,Type=Integer,Description="p">',
+                 "#CHROM\tPOS\tID\tREF\tALT\tQUAL\tFILTER\tINFO\tFORMAT\t" + "\t".join(self.vcf_samples)]
+        for p in self.positions:
+            calls = []
+            for s in self.vcf_samples:
+                if (p, s) in self.phase:
+                    calls.append("%d|%d:%d" % (self.phase[p, s][0], self.phase[p, s][1], self.variants[p][s]))
+                else:
+                    calls.append("0/0:.")
+            lines.append("chr1\t%d\t.\tA\tC\t.\t.\t.\tGT:PS\t%s" % (p + 1, "\t".join(calls)))
+        plain = os.path.join(tmp, "in.vcf")
+        open(plain, "w").write("\n".join(lines) + "\n")
+        gz = plain + ".gz"
+        pysam.tabix_compress(plain, gz, force=True)
+        pysam.tabix_index(gz, preset="vcf", force=True)
+        hdr = pysam.AlignmentHeader.from_dict({"HD": {"VN": "1.6", "SO": "coordinate"}, "SQ": [{"SN": "chr1", "LN": 10000}], "RG": [{"ID": "g_" + s, "SM": s} for s in self.bam_samples]})
+        bam = os.path.join(tmp, "in.bam")
+        with pysam.AlignmentFile(bam, "wb", header=hdr) as f:
+            for r in sorted(self.recs, key=lambda r: r["start"]):
+                seq = ["A"] * 50
+                for p, a in r["alleles"].items():
+                    seq[p - r["start"]] = "AC"[a]
+                a = pysam.AlignedSegment(hdr)
+                a.query_name, a.flag, a.reference_id, a.reference_start, a.mapping_quality = r["name"], 0, 0, r["start"], 60
+                a.query_sequence = "".join(seq)
+                a.query_qualities = pysam.qualitystring_to_array("I" * 50)
+                a.cigartuples = [(0, 50)]
+                a.set_tag("RG", "g_" + r["sample"])
+                if r["bx"]:
+                    a.set_tag("BX", r["bx"])
+                f.write(a)
+        pysam.index(bam)
+        return gz, bam
+
+
+class SeedHaplotag(SeedPhase):
+    """run_haplotag under the file stand-ins of C10 with two or three samples: compute_variant_file_samples_to_use and
+    compute_shared_samples return Python sets of sample names, prepare_haplotag_information iterates them and pools barcode
+    clouds in Python sets of Read objects."""
+
+    name = "seed_haplotag"
+    encoded = ["whatshap.cli.haplotag.run_haplotag", "compute_variant_file_samples_to_use", "compute_shared_samples", "prepare_haplotag_information", "get_variant_information", "attempt_add_phase_information", "normalize_user_regions", "ignore_read", "whatshap.vcf.VariantTable"]
+    sources = ["whatshap/cli/haplotag.py", "whatshap/vcf.py"]
+    stubs = ["vf/models/haplotag_model.py (as C10 `loop`): Aln (pysam.AlignedSegment), BamIn / BamOut (pysam.AlignmentFile), VcfIn (VcfReader.fetch_regions), Reader (PhasedInputReader: the scenario's reads of the requested sample), TextOut (xopen); md5_of constant; logger calls stripped",
+             "set/frozenset -> vf/pysym/nondet.py; sets of Read objects (identity hash, i.e. address order) are order-nondeterministic too (nondet.id_hashed)",
+             "replay: the real `whatshap haplotag` CLI on a materialised bgzipped+indexed VCF and an indexed BAM with one read group per sample, PYTHONHASHSEED 0..5; compared: the records of the output BAM (as SAM text) and --output-haplotag-list"]
+    assumptions = ["as seed_compare", "a barcode cloud that touches two phase sets has different maximum scores for them (mode `cloud`: 80 vs 40).  With equal maxima the reported phase set follows the address order of the Read wrappers in the "
+                   "`reads_to_consider` set: on the real CLI the outcome of such a tie flipped when unrelated reads were added in front of the cloud (2 vs 1 extra reads) but was identical under 41 hash seeds and 8 environment sizes, "
+                   "i.e. deterministic per input in this build - not a confirmed run-to-run difference, therefore not asserted"]
+    required_cover = ["two samples share a barcode", "one read name in two samples", "sample subset given", "BAM sample missing in the VCF", "a set was iterated in a solver-chosen order", "a set of Read objects was iterated in a solver-chosen order", "alignment tagged through the barcode fall-back"]
+    REAL_FILES = ("list.tsv", "out.sam")
+    replay_every = 1
+
+    def shapes(self, tier):
+        out = [dict(mode="shared barcode"), dict(mode="same read name"), dict(mode="disjoint"), dict(mode="cloud"), dict(mode="selection", given=None), dict(mode="selection", given=["sB", "sA"]), dict(mode="selection", given=["sA"])]
+        if tier != "quick":
+            out += [dict(mode="selection", given=["sC", "sA", "sB"]), dict(mode="disjoint", ignore_linked=True)]
+        return out
+
+    def bounds(self, tier):
+        return ("7 scenarios (thorough: 9) on one contig: two samples sharing a barcode / sharing a read name / fully disjoint; one sample with a two-read barcode cloud over two phase sets; sample selection with --sample None / [sB,sA] / [sA] on a VCF with 3 and a BAM with 3 samples (2 shared); "
+                "solver-chosen: the haplotype every read supports, phase orientation of non-leading variants; every iteration over a set of <= 3 sample names or <= 2 Read objects in a solver-chosen order; outputs compared: written alignments (name, flag, start, tags) and the haplotag list")
+
+    def setup(self):
+        from vf.models import core_model, haplotag_model
+
+        self.core_model = core_model
+        self.hm = haplotag_model
+        self._real_cache = {}
+
+    def _load_world(self):
+        hm = self.hm
+        w = SymWorld(overrides={"whatshap.core": self.core_model, "whatshap.cli": hm.cli_stub()}, shadows=nondet.shadows(), transformer=lambda name, tree: nondet.transformer(name, hm.strip_logging(name, tree)))
+        return dict(ht=w.load("whatshap.cli.haplotag"), vcf=w.load("whatshap.vcf"), world=w)
+
+    def harness(self, e, shape, impl):
+        sc = HtScenario(e, shape)
+        if shape["mode"] == "shared barcode":
+            e.cover("two samples share a barcode")
+        if shape["mode"] == "same read name":
+            e.cover("one read name in two samples")
+        if shape.get("given"):
+            e.cover("sample subset given")
+        if set(sc.bam_samples) - set(sc.vcf_samples):
+            e.cover("BAM sample missing in the VCF")
+        base, other, iterated, _ = self.sym_pair(e, shape, sc)
+        if iterated:
+            e.cover("a set was iterated in a solver-chosen order")
+        if self._object_sets[0]:
+            e.cover("a set of Read objects was iterated in a solver-chosen order")
+        if any(w[0] in ("x", "y") and any(k == "HP" for k, _ in w[3]) for w in base["written"]):
+            e.cover("alignment tagged through the barcode fall-back")
+        differing = [k for k in sorted(base) if base[k] != other.get(k)]
+        if impl == "real":
+            return self.confirm_real(e, shape, sc, ["out.sam" if k == "written" else k for k in differing], None)
+        e.check(base["<exception>"] is None, "the command raised under the stubs: %s" % base["<exception>"], lambda: dict(file="<exception>", kind="crash"))
+        for k in differing:
+            e.check(False, "output %s depends on the iteration order of a set (hash seed)" % k, lambda k=k: dict(file=k, canonical=str(base[k])[-600:], other=str(other.get(k))[-600:]))
+
+    def prepare(self, W, sc):
+        self._object_sets = [0]
+        pred = nondet.id_hashed
+        counter = self._object_sets
+
+        def obj(x):
+            if pred(x) and not hasattr(x, "reference_allele"):
+                counter[0] += 1
+                return True
+            return False
+
+        self._obj_pred = obj
+
+    def sym_pair(self, e, shape, sc):
+        r = SeedPhase.sym_pair(self, e, shape, sc)
+        return r
+
+    def invoke(self, W, sc, shape, res):
+        hm, mod, vcf, core = self.hm, W["ht"], W["vcf"], self.core_model
+        nondet.EXTRA_SENSITIVE[:] = [lambda x: hasattr(x, "reference_allele"), self._obj_pred]
+        vt = sc.table(vcf, core)
+        recs, spans = [], {}
+        for r in sc.recs:
+            tags = {"RG": "g_" + r["sample"]}
+            if r["bx"]:
+                tags["BX"] = r["bx"]
+            a = hm.make_sym_aln(r["name"], 0, r["start"], 50, tags)
+            recs.append(a)
+            spans[id(a)] = (r["start"], r["start"] + 50)
+        recs.sort(key=lambda a: a.reference_start)
+        header = {"HD": {"VN": "1.6", "SO": "coordinate"}, "SQ": [{"SN": "chr1", "LN": 10000}], "RG": [{"ID": "g_" + s, "SM": s} for s in sc.bam_samples]}
+        bam_in = hm.BamIn(recs, header, lambda a: spans[id(a)])
+        bam_out, text_out = hm.BamOut(), hm.TextOut()
+
+        class _Pysam:
+            class AlignmentHeader:
+                from_dict = staticmethod(lambda d: d)
+
+            @staticmethod
+            def AlignmentFile(path, *a, **kw):
+                return bam_out if ("header" in kw or str(kw.get("mode", "r")).startswith("w")) else bam_in
+
+        mod.pysam = _Pysam
+        mod.VcfReader = lambda *a, **k: hm.VcfIn(list(sc.vcf_samples), vt, mod.VcfInvalidChromosome)
+        reads = sc.reads_by_sample()
+        mod.PhasedInputReader = lambda *a, **k: hm.Reader(core, reads)
+        mod.md5_of = lambda path: "0" * 32
+        mod.xopen = lambda path, mode="wt": text_out
+        try:
+            with contextlib.redirect_stdout(io.StringIO()):
+                mod.run_haplotag(variant_file="in.vcf.gz", alignment_file="in.bam", output="out.bam", reference=False, regions=None, ignore_linked_read=bool(shape.get("ignore_linked")),
+                                 given_samples=sc.given, haplotag_list="list.tsv")
+        finally:
+            res["written"] = bam_out.written
+            res["list.tsv"] = list(text_out.lines)
+
+    def real_results(self, shape, sc):
+        key = sc.key()
+        if key not in self._real_cache:
+            import pysam
+
+            tmp = tempfile.mkdtemp(prefix="c16-%s-" % self.name, dir="/var/tmp")
+            try:
+                gz, bam = sc.write_real_files(tmp)
+                results = []
+                for seed in REAL_SEEDS:
+                    out = os.path.join(tmp, "o%s" % seed)
+                    os.makedirs(out)
+                    argv = ["haplotag", "--no-reference", "--output-haplotag-list", os.path.join(out, "list.tsv"), "-o", os.path.join(out, "out.bam")]
+                    if shape.get("ignore_linked"):
+                        argv.append("--ignore-linked-read")
+                    for s in sc.given or []:
+                        argv += ["--sample", s]
+                    r = _real_cli(argv + [gz, bam], seed, tmp)
+                    res = {"<rc>": r.returncode, "<stderr>": r.stderr[-400:] if r.returncode else ""}
+                    if os.path.exists(os.path.join(out, "list.tsv")):
+                        res["list.tsv"] = open(os.path.join(out, "list.tsv")).read()
+                    if r.returncode == 0:
+                        with pysam.AlignmentFile(os.path.join(out, "out.bam"), check_sq=False) as f:
+                            res["out.sam"] = "\n".join(a.to_string() for a in f.fetch(until_eof=True))
+                    results.append(res)
+                self._real_cache[key] = results
+            finally:
+                shutil.rmtree(tmp, ignore_errors=True)
+        return self._real_cache[key]
+
+    def classify(self, shape, v):
+        if shape["mode"] in ("shared barcode", "same read name"):
+            return "seed_haplotag:results of the samples are merged in sample-set order:%s" % shape["mode"]
+        return "seed_haplotag:%s:mode=%s:given=%s" % ((v.get("info") or {}).get("file", v["msg"]), shape["mode"], shape.get("given"))
+
+
+SUBCHECKS["seed_haplotag"] = SeedHaplotag()
+
+
+# =====================================================================================================================
+# seed_stats / seed_unphase / seed_split: commands that hardly use sets - run once under NSet shadows
+# =====================================================================================================================
+class _SmallSeedCheck(SeedPhase):
+    """common driver: the scenario object only needs key(); prepare/invoke/real_results are per command"""
+
+    required_cover = ["sets of the command are NSets"]
+    replay_every = 1
+    covers = ()
+
+    def setup(self):
+        from vf.models import core_model
+
+        self.core_model = core_model
+        self._real_cache = {}
+
+    def scenario(self, e, shape):
+        raise NotImplementedError
+
+    def harness(self, e, shape, impl):
+        sc = self.scenario(e, shape)
+        nondet.BUILT[0] = 0
+        base, other, iterated, _ = self.sym_pair(e, shape, sc)
+        if nondet.BUILT[0] or iterated:
+            e.cover("sets of the command are NSets")
+        if iterated:
+            e.cover("a set was iterated in a solver-chosen order")
+        differing = [k for k in sorted(base) if base[k] != other.get(k)]
+        if impl == "real":
+            return self.confirm_real(e, shape, sc, differing, None)
+        e.check(base["<exception>"] is None, "the command raised under the stubs: %s" % base["<exception>"], lambda: dict(file="<exception>", kind="crash"))
+        for k in differing:
+            e.check(False, "output %s depends on the iteration order of a set (hash seed)" % k, lambda k=k: dict(file=k, canonical=str(base[k])[-600:], other=str(other.get(k))[-600:]))
+
+    def prepare(self, W, sc):
+        pass
+
+    def real_run(self, shape, sc, tmp, out, seed):
+        raise NotImplementedError
+
+    def real_results(self, shape, sc):
+        key = repr(sorted(shape.items(), key=str)) + sc.key()
+        if key not in self._real_cache:
+            tmp = tempfile.mkdtemp(prefix="c16-%s-" % self.name, dir="/var/tmp")
+            try:
+                results = []
+                for seed in REAL_SEEDS:
+                    out = os.path.join(tmp, "o%s" % seed)
+                    os.makedirs(out)
+                    results.append(self.real_run(shape, sc, tmp, out, seed))
+                self._real_cache[key] = results
+            finally:
+                shutil.rmtree(tmp, ignore_errors=True)
+        return self._real_cache[key]
+
+    def classify(self, shape, v):
+        return "%s:%s:%s" % (self.name, (v.get("info") or {}).get("file", v["msg"]), json.dumps(shape, sort_keys=True))
+
+
+class _Keyed:
+    def __init__(self, **k):
+        self.__dict__.update(k)
+
+    def key(self):
+        return repr(sorted((k, repr(v)) for k, v in self.__dict__.items() if not k.startswith("_")))
+
+
+class SeedStats(_SmallSeedCheck):
+    name = "seed_stats"
+    encoded = ["whatshap.cli.stats.run_stats", "get_phase_blocks", "PhasingStats", "compute_ng50", "write_to_block_list", "whatshap.vcf.VcfReader"]
+    sources = ["whatshap/cli/stats.py", "whatshap/vcf.py"]
+    stubs = ["pysam.VariantFile -> vf/models/vcfread_model.py (as C12); open() in stats.py -> in-memory files", "set/frozenset -> vf/pysym/nondet.py",
+             "replay: the real `whatshap stats --tsv --block-list --gtf [--chromosome ...]` CLI under PYTHONHASHSEED 0..5 (files and stdout compared)"]
+    assumptions = ["as seed_compare"]
+    required_cover = ["sets of the command are NSets", "a set was iterated in a solver-chosen order", "two chromosomes", "indexed VCF: chromosomes fetched by name"]
+    REAL_FILES = ("tsv", "bl", "gtf", "<stdout>")
+
+    def shapes(self, tier):
+        return [dict(chromosomes=None), dict(chromosomes=["chr2", "chr1"]), dict(chromosomes=["chr2", "chr1"], indexed=True)]
+
+    def bounds(self, tier):
+        return "one sample, two contigs of different length (500 / 100000), chr1: one block of 3 phased hets + one unphased het (solver-chosen phase bits), chr2: one block of 2; all chromosomes / --chromosome chr2 --chromosome chr1 on a plain VCF (file order) and on a bgzipped tabix-indexed one (fetched by name in the order given); --tsv, --block-list, --gtf"
+
+    def _load_world(self):
+        from vf.models import vcfread_model
+
+        cli = types.ModuleType("whatshap.cli")
+        cli.__path__ = []
+        cli.CommandLineError = type("CommandLineError", (Exception,), {})
+        w = SymWorld(overrides={"whatshap.core": self.core_model, "whatshap.cli": cli}, shadows=nondet.shadows(), transformer=nondet.transformer)
+        stats, vcf = w.load("whatshap.cli.stats"), w.load("whatshap.vcf")
+        vcf.VariantFile = vcfread_model.VariantFile
+        return dict(stats=stats, vcf=vcf, model=vcfread_model, world=w)
+
+    def scenario(self, e, shape):
+        from vf.models import vcfread_model as vm
+
+        e.cover("two chromosomes")
+        gt = lambda name: "1|0" if e.bit(name) else "0|1"
+        recs = [vm.RecordSpec("chr1", 100, "A", "C", "0|1", [("PS", "101")]), vm.RecordSpec("chr1", 200, "A", "C", gt("ph1"), [("PS", "101")]), vm.RecordSpec("chr1", 300, "A", "C", "0/1", [("PS", ".")]),
+                vm.RecordSpec("chr1", 400, "A", "C", gt("ph2"), [("PS", "101")]), vm.RecordSpec("chr2", 100, "G", "T", "0|1", [("PS", "101")]), vm.RecordSpec("chr2", 150, "G", "T", gt("ph3"), [("PS", "101")])]
+        content = vm.VcfContent("sampleX", [("chr1", 500), ("chr2", 100000)], recs, indexed=bool(shape.get("indexed")))
+        if shape.get("indexed"):
+            e.cover("indexed VCF: chromosomes fetched by name")
+        sc = _Keyed(text=content.text())
+        sc._content = content
+        return sc
+
+    def invoke(self, W, sc, shape, res):
+        stats, model = W["stats"], W["model"]
+        model.FILES.clear()
+        model.FILES["in.vcf"] = sc._content
+        fs = MemFS()
+        stats.open = fs.open
+        buf = io.StringIO()
+        try:
+            with contextlib.redirect_stdout(buf):
+                stats.run_stats(vcf="in.vcf", tsv="tsv", block_list="bl", gtf="gtf", chromosomes=shape["chromosomes"])
+        finally:
+            res.update(fs.files)
+            res["<stdout>"] = buf.getvalue()
+
+    def real_run(self, shape, sc, tmp, out, seed):
+        p = os.path.join(tmp, "in.vcf")
+        if shape.get("indexed"):
+            p += ".gz"
+        if not os.path.exists(p):
+            open(os.path.join(tmp, "in.vcf"), "w").write(sc.text)
+            if shape.get("indexed"):
+                import pysam
+
+                pysam.tabix_index(os.path.join(tmp, "in.vcf"), preset="vcf", force=True)  # compresses to in.vcf.gz and writes the .tbi
+        argv = ["stats", "--tsv", os.path.join(out, "tsv"), "--block-list", os.path.join(out, "bl"), "--gtf", os.path.join(out, "gtf")]
+        for c in shape["chromosomes"] or []:
+            argv += ["--chromosome", c]
+        r = _real_cli(argv + [p], seed, tmp)
+        res = {"<rc>": r.returncode, "<stderr>": r.stderr[-400:] if r.returncode else "", "<stdout>": r.stdout}
+        for f in os.listdir(out):
+            res[f] = open(os.path.join(out, f)).read()
+        return res
+
+
+class SeedUnphase(_SmallSeedCheck):
+    name = "seed_unphase"
+    encoded = ["whatshap.cli.unphase.run_unphase", "unphase_header"]
+    sources = ["whatshap/cli/unphase.py"]
+    stubs = ["pysam -> vf/models/pysam_model.py (as C13)", "frozenset -> vf/pysym/nondet.py (TAGS_TO_REMOVE is iterated per record and for the header)", "replay: the real `whatshap unphase` CLI under PYTHONHASHSEED 0..5 (stdout compared)"]
+    assumptions = ["as seed_compare"]
+    required_cover = ["sets of the command are NSets", "a set was iterated in a solver-chosen order"]
+    REAL_FILES = ("out.vcf",)
+
+    def shapes(self, tier):
+        return [dict(tags="all"), dict(tags="PS only")]
+
+    def bounds(self, tier):
+        return "two samples, three records carrying PS+PQ / HP / no phase tag (or PS only), header with a phasing= line and the definitions of all three tags; solver-chosen phased bit of two calls; all 6 orders of frozenset({HP,PQ,PS})"
+
+    def _load_world(self):
+        from vf.models import pysam_model as pm, vcfdoc
+
+        w = SymWorld(overrides={"pysam": pm, "pysam.libcbcf": pm, "whatshap.core": self.core_model, "whatshap.cli": vcfdoc.cli_stub()}, shadows=nondet.shadows(), transformer=nondet.transformer)
+        return dict(pm=pm, mod=w.load("whatshap.cli.unphase"), world=w)
+
+    def scenario(self, e, shape):
+        ph = [bool(e.bit("phased%d" % i)) for i in range(2)]
+        allt = shape["tags"] == "all"
+        header = [("GENERIC", "source", "x"), ("GENERIC", "phasing", "whatshap"), ("FORMAT", "GT", "1", "String"), ("FORMAT", "DP", "1", "Integer"), ("FORMAT", "PS", "1", "Integer"), ("FORMAT", "PQ", "1", "Integer"), ("FORMAT", "HP", ".", "String"), ("contig", "chr1")]
+        R = lambda pos, fmt, calls: dict(chrom="chr1", pos=pos, id=None, ref="A", alts=("C",), qual=None, filter=[], info={}, format=fmt, calls=calls)
+        recs = [R(10, ["GT", "PS", "PQ", "DP"] if allt else ["GT", "PS", "DP"], [dict({"GT": (1, 0), "phased": ph[0], "PS": 10, "DP": 7}, **({"PQ": 30} if allt else {})), dict({"GT": (0, 1), "phased": True, "PS": 10, "DP": 8}, **({"PQ": 20} if allt else {}))])]
+        if allt:
+            recs.append(R(20, ["GT", "HP", "DP"], [{"GT": (0, 1), "phased": False, "HP": ("10-1", "10-2"), "DP": 5}, {"GT": (1, 1), "phased": ph[1], "HP": (".",), "DP": 6}]))
+        recs.append(R(30, ["GT", "DP"], [{"GT": (1, 0), "phased": ph[1], "DP": 3}, {"GT": (0, 0), "phased": False, "DP": 4}]))
+        sc = _Keyed(doc=dict(samples=["s1", "s2"], header=header, records=recs))
+        return sc
+
+    def invoke(self, W, sc, shape, res):
+        import copy
+
+        pm, mod = W["pm"], W["mod"]
+        pm.FS.clear()
+        pm.FS["in.vcf"] = copy.deepcopy(sc.doc)
+        sink = pm.MemFile()
+        try:
+            mod.run_unphase("in.vcf", sink)
+        finally:
+            res["out.vcf"] = repr(sink.doc)
+
+    def real_run(self, shape, sc, tmp, out, seed):
+        from vf.models import materialise
+
+        p = materialise.write_vcf(sc.doc, os.path.join(tmp, "in.vcf"))
+        r = _real_cli(["unphase", p], seed, tmp)
+        return {"<rc>": r.returncode, "<stderr>": r.stderr[-400:] if r.returncode else "", "out.vcf": r.stdout}
+
+
+class SeedSplit(_SmallSeedCheck):
+    name = "seed_split"
+    encoded = ["whatshap.cli.split.run_split", "process_haplotag_list_file", "select_reads_in_largest_phased_blocks", "write_read_length_histogram"]
+    sources = ["whatshap/cli/split.py"]
+    stubs = ["xopen / pysam / open / detect_file_format -> vf/models/io_model.py (as C14)", "set -> vf/pysym/nondet.py", "replay: the real `whatshap split` CLI on a FASTQ + haplotag list under PYTHONHASHSEED 0..5 (the three FASTQ outputs and the histogram compared)"]
+    assumptions = ["as seed_compare"]
+    required_cover = ["sets of the command are NSets", "a set was iterated in a solver-chosen order", "two blocks of one chromosome tie for the largest"]
+    REAL_FILES = ("h1", "h2", "untagged", "hist")
+
+    def shapes(self, tier):
+        return [dict(largest=True, discard=False), dict(largest=True, discard=True), dict(largest=False, discard=True)]
+
+    def bounds(self, tier):
+        return "6 FASTQ reads of different lengths (one not listed), 4-column haplotag list over two chromosomes with two equally large phase sets on chr1; --only-largest-block / --discard-unknown-reads combinations, --read-lengths-histogram; solver-chosen haplotype of two reads"
+
+    def _load_world(self):
+        from vf.models import io_model
+
+        holder = io_model.Holder()
+        m = io_model.build(holder)
+        sh = dict(nondet.shadows())
+        sh["open"] = m.open
+        w = SymWorld(overrides={"xopen": m.xopen_module, "pysam": m.pysam}, shadows=sh, transformer=nondet.transformer)
+        w.load("whatshap")
+        pkg = types.ModuleType("whatshap.cli")
+        pkg.__path__ = [os.path.join(w.repo, "whatshap", "cli")]
+        pkg.__package__ = "whatshap.cli"
+        w.modules["whatshap.cli"] = pkg
+        mod = w.load("whatshap.cli.split")
+        mod.detect_file_format = m.detect_file_format
+        return dict(mod=mod, holder=holder, io=io_model, world=w)
+
+    def scenario(self, e, shape):
+        e.cover("two blocks of one chromosome tie for the largest")
+        hap = lambda name: "H2" if e.bit(name) else "H1"
+        reads = [("ra", 4), ("rb", 5), ("rc", 6), ("rd", 7), ("re", 8), ("rx", 9)]
+        fastq = "".join("@%s\n%s\n+\n%s\n" % (n, "A" * L, "I" * L) for n, L in reads)
+        rows = [("ra", "H1", "100", "chr1"), ("rb", hap("hb"), "100", "chr1"), ("rc", "H2", "200", "chr1"), ("rd", hap("hd"), "200", "chr1"), ("re", "H1", "50", "chr2")] + ([("rx", "none", "none", "chr2")] if shape["discard"] else [])
+        listing = "#readname\thaplotype\tphaseset\tchromosome\n" + "".join("\t".join(r) + "\n" for r in rows)
+        return _Keyed(fastq=fastq, listing=listing)
+
+    def invoke(self, W, sc, shape, res):
+        vfs = W["io"].VFS()
+        W["holder"].vfs = vfs
+        vfs.files["reads.fastq"] = sc.fastq
+        vfs.files["list.tsv"] = sc.listing
+        try:
+            W["mod"].run_split("reads.fastq", "list.tsv", output_h1="h1", output_h2="h2", output_untagged="untagged", only_largest_block=shape["largest"], discard_unknown_reads=shape["discard"], read_lengths_histogram="hist")
+        finally:
+            for k in self.REAL_FILES:
+                res[k] = vfs.files.get(k)
+
+    def real_run(self, shape, sc, tmp, out, seed):
+        open(os.path.join(tmp, "reads.fastq"), "w").write(sc.fastq)
+        open(os.path.join(tmp, "list.tsv"), "w").write(sc.listing)
+        P = lambda n: os.path.join(out, n + (".fastq" if n != "hist" else ""))
+        argv = ["split", "--output-h1", P("h1"), "--output-h2", P("h2"), "--output-untagged", P("untagged"), "--read-lengths-histogram", P("hist")]
+        if shape["largest"]:
+            argv.append("--only-largest-block")
+        if shape["discard"]:
+            argv.append("--discard-unknown-reads")
+        r = _real_cli(argv + [os.path.join(tmp, "reads.fastq"), os.path.join(tmp, "list.tsv")], seed, tmp)
+        res = {"<rc>": r.returncode, "<stderr>": r.stderr[-400:] if r.returncode else ""}
+        for n in self.REAL_FILES:
+            res[n] = open(P(n)).read() if os.path.exists(P(n)) else None
+        return res
+
+
+for _c in (SeedStats(), SeedUnphase(), SeedSplit()):
+    SUBCHECKS[_c.name] = _c
